@@ -178,9 +178,8 @@ theorem gsvdPost_embedding :
   · show (if p.normalized then normalize2 F nCol (svIndex sv).length _ else _) = _
     rw [hcol, hl]
 
-/-- **documented order**: `singular_values_` is in decreasing order -/
-theorem gsvdPost_order : (gsvdPost F nRow nCol p k dr dc wc sv u v).singularValues.Pairwise (· ≥ ·) := by
-  simp only [gsvdPost]
+/-- the values selected by `np.argsort(-s)` are non-increasing -/
+theorem sorted_svIndex (sv : Vec α) : ((svIndex sv).map (vget sv)).Pairwise (· ≥ ·) := by
   rw [List.pairwise_map]
   have hs := sorted_argsortN (sv.map fun x => -x).length (vget (sv.map fun x => -x))
   have hm : ∀ x, x ∈ argsortN (sv.map fun x => -x).length (vget (sv.map fun x => -x)) → x < sv.length := by
@@ -194,6 +193,11 @@ theorem gsvdPost_order : (gsvdPost F nRow nCol p k dr dc wc sv u v).singularValu
   have h2 : sv.getD y 0 = vget sv y := rfl
   rw [this, h2] at hxy
   linarith
+
+/-- **documented order**: `singular_values_` is in decreasing order -/
+theorem gsvdPost_order : (gsvdPost F nRow nCol p k dr dc wc sv u v).singularValues.Pairwise (· ≥ ·) := by
+  simp only [gsvdPost]
+  exact sorted_svIndex sv
 
 /-- `SparseLR.matmat` of the weighted operator is the product with the denoted matrix -/
 theorem matmat_diag_regOf (n m kk : Nat) (x : Mat α) (r : Option α) (d1 d2 : Vec α) (b : Mat α)
@@ -319,6 +323,43 @@ theorem gsvd_predict_row (hc : 0 < nCol)
   · simp only [hnm, if_false, Bool.false_eq_true]
     rw [hlen, mget_mkMat_lt _ (by omega) hcs, mget_mkMat_lt _ hi hcs]
     exact hraw c hcs
+
+/-- the re-ordered triplets kept as `singular_values_`, `singular_vectors_left_`, `singular_vectors_right_` are still
+    singular triplets of the operator -/
+theorem gsvdPost_triplets (m : SLR α) (hr : m.nRow = nRow) (hcn : m.nCol = nCol)
+    (hsol : IsSingularTriplets m sv u v) :
+    IsSingularTriplets m (gsvdPost F nRow nCol p k dr dc wc sv u v).singularValues
+      (gsvdPost F nRow nCol p k dr dc wc sv u v).left (gsvdPost F nRow nCol p k dr dc wc sv u v).right := by
+  intro c hc
+  rw [gsvdPost_sv_length] at hc
+  have hc' := svIndex_lt sv c hc
+  obtain ⟨h1, h2⟩ := hsol _ hc'
+  rw [gsvdPost_sv F nRow nCol p k dr dc wc sv u v c hc]
+  constructor
+  · intro i hi
+    rw [hr] at hi
+    rw [gsvdPost_left F nRow nCol p k dr dc wc sv u v i c hi hc, ← h1 i (by rw [hr]; exact hi), hcn]
+    exact Finset.sum_congr rfl fun j hj => by
+      rw [gsvdPost_right F nRow nCol p k dr dc wc sv u v j c (Finset.mem_range.mp hj) hc]
+  · intro j hj
+    rw [hcn] at hj
+    rw [gsvdPost_right F nRow nCol p k dr dc wc sv u v j c hj hc, ← h2 j (by rw [hcn]; exact hj), hr]
+    exact Finset.sum_congr rfl fun i hi => by
+      rw [gsvdPost_left F nRow nCol p k dr dc wc sv u v i c (Finset.mem_range.mp hi) hc]
+
+theorem gsvdOperator_shape : (gsvdOperator F nRow nCol a p).2.2.2.2.nRow = nRow ∧
+    (gsvdOperator F nRow nCol a p).2.2.2.2.nCol = nCol := by
+  unfold gsvdOperator; cases p.regularization <;> exact ⟨rfl, rfl⟩
+
+/-! ### `LanczosSVD.fit` -/
+
+/-- the triplets `LanczosSVD.fit` exposes are those of `svds`, re-ordered by decreasing singular value -/
+theorem lanczosSvdPost_order (s : Vec α) (uu vt : Mat α) :
+    (lanczosSvdPost nRow nCol uu s vt).1.Pairwise (· ≥ ·) ∧ (lanczosSvdPost nRow nCol uu s vt).1.length = s.length := by
+  constructor
+  · simp only [lanczosSvdPost]
+    exact sorted_svIndex s
+  · simp [lanczosSvdPost, svIndex_length]
 
 /-! ### PCA -/
 
